@@ -21,8 +21,8 @@ import ast
 from ..cfg import cfg_of
 from ..core import Ctx, key_of
 from ..effects import sink_of
-from ..loops import classify
-from ..model import AnchorMissing, dotted, norm, own_nodes
+from ..loops import classify, definite_problem
+from ..model import AnchorMissing, Inconclusive, dotted, norm, own_nodes
 from .common import facts_of
 
 META = {
@@ -46,15 +46,23 @@ def run(ctx: Ctx):
     ctx.stats["functions_reachable"] = len(reach)
     # ---------------------------------------------------------------- R11.1
     n_while = 0
+    undecided = []
     for fn in sorted(reach, key=lambda f: f.key):
         for w in own_nodes(fn):
             if isinstance(w, ast.While):
                 n_while += 1
                 kind, detail = classify(fn, w)
-                ctx.ob("R11.1", f"{fn.qual}: while {norm(w.test)[:70]}", (fn, w), kind is not None,
-                       f"variant: {kind} — {detail}" if kind else
-                       f"no loop variant: {detail}; the loop can run until an index leaves its table or for ever",
-                       key=key_of("R11.1", fn, None, "while " + norm(w.test)[:80]))
+                if kind is not None:
+                    ctx.ob("R11.1", f"{fn.qual}: while {norm(w.test)[:70]}", (fn, w), True, f"variant: {kind} — {detail}",
+                           key=key_of("R11.1", fn, None, "while " + norm(w.test)[:80]))
+                    continue
+                bad = definite_problem(fn, w)
+                if bad is not None:
+                    ctx.ob("R11.1", f"{fn.qual}: while {norm(w.test)[:70]}", (fn, w), False,
+                           f"{bad[0]} loop: {bad[1]}; the loop runs until an index leaves its table or for ever",
+                           key=key_of("R11.1", fn, None, "while " + norm(w.test)[:80]))
+                else:
+                    undecided.append(f"{fn.loc(w)} {fn.qual}: while {norm(w.test)[:60]} ({detail[:120]})")
             elif isinstance(w, ast.For) and isinstance(w.iter, ast.Name):
                 grows = [c for st in w.body for c in ast.walk(st) if isinstance(c, ast.Call) and isinstance(c.func, ast.Attribute)
                          and c.func.attr in ("append", "extend", "insert") and norm(c.func.value) == w.iter.id]
@@ -63,6 +71,7 @@ def run(ctx: Ctx):
                            "the loop appends to the list it iterates: it may never finish",
                            key=key_of("R11.1", fn, None, "for-grow " + w.iter.id))
     ctx.stats["while_loops"] = n_while
+    ctx.stats["undecided_loops"] = undecided
     # ---------------------------------------------------------------- R11.2
     sb = repo.cls("Scoreboard")
     for nm in ("__getitem__", "__setitem__"):
@@ -172,6 +181,9 @@ def run(ctx: Ctx):
     ctx.floor("R11.1", 30)
     ctx.floor("R11.2", 5)
     ctx.floor("R11.3", 3)
+    if undecided:
+        # neither a variant nor a definite defect: the analysis cannot decide termination of these loops
+        raise Inconclusive("no variant recognised for: " + "; ".join(undecided))
 
 
 def _loop_sources(fn, node) -> str:
